@@ -96,10 +96,13 @@ static void canon_key(const MCKind *k, uint64_t *k1, uint64_t *k2)
 {
     static uint8_t buf[16384];
     size_t n = k->canon(buf, sizeof(buf));
+    uint64_t sh;
     if (n > sizeof(buf)) engine_error("canon buffer overflow");
+    sh = verif_shadow_sig(buf, n);   /* (copies carry the shadow of what they were copied from) */
     verif_unpoison(buf, n);   /* images of heap blocks the library left partly unwritten: the engine may hash them, the library may not use them */
     *k1 = fnv1a(buf, n, FNV_INIT);
     *k2 = fnv1a(buf, n, 0x9ae16a3b2f90404fULL) ^ (uint64_t)n;
+    *k1 ^= sh; *k2 += sh * 0x9e3779b97f4a7c15ULL;
 }
 
 const char *mc_casedesc(void)
